@@ -174,9 +174,12 @@ step(struct rp_h *h, const struct req *q, RPBlockAccess verdict, const char *ctx
     }
 }
 
+static int oversize_mismatch;
+
 static void
 gen_req(vh_rng *rg, const struct rp_h *h, struct req *q, uint16_t seq)
 {
+    oversize_mismatch = 0;
     memset(q, 0, sizeof *q);
     unsigned x = (unsigned)vh_below(rg, 20);
     q->seq = vh_chance(rg, 1, 3) ? (uint16_t)vh_rand(rg) : seq;
@@ -192,6 +195,13 @@ gen_req(vh_rng *rg, const struct rp_h *h, struct req *q, uint16_t seq)
     if (x < 8) {
         q->kind = RT_READ_REQ;
         q->bsize = (uint32_t)(vh_chance(rg, 1, 5) ? (vh_chance(rg, 1, 2) ? 0 : cap) : vh_below(rg, cap + 1));
+        if ((q->w16 != 0) != (h->mem16 != 0) && vh_chance(rg, 1, 2)) {
+            /* the word-size error is due whatever the block size: also for reads no answer could carry */
+            static const uint32_t over[] = { 1, 2, 3, 100, 255, 65536, 0x7fffffffu, 0xffffffffu };
+            uint32_t o = over[vh_below(rg, 8)];
+            q->bsize = o > 0xffffffffu - (uint32_t)cap ? 0xffffffffu : (uint32_t)cap + o;
+            oversize_mismatch = 1;
+        }
     } else if (x < 16) {
         q->kind = RT_WRITE_REQ;
         q->bsize = (uint32_t)(vh_chance(rg, 1, 5) ? (vh_chance(rg, 1, 2) ? 0 : cap) : vh_below(rg, cap + 1));
@@ -242,6 +252,8 @@ u_session(uint64_t idx, void *arg)
             VH_CASE4(idx, s, f, q.kind);
             snprintf(ctx, sizeof ctx, "session %" PRIu64 ".%d frame %u/%u", idx, s, f, nframes);
             step(&H, &q, verdict, ctx);
+            if (oversize_mismatch)
+                VH_COUNT("read with the wrong word size and a block no answer could carry");
             if ((f & 7) == 7 && rp_live_blocks(&H) == 0) {
                 /* the arena only grows; start over with the same instance state */
                 vh_arena_reset();
@@ -561,6 +573,7 @@ harness_run(void)
     }
     vh_require("non-request frame: no access, no reply");
     vh_require("request with the wrong word size");
+    vh_require("read with the wrong word size and a block no answer could carry");
     vh_require("frame carrying 65536 or more payload octets");
     static const char *t[] = { "table verdict -> ACK", "table verdict -> EUNMAPPED", "table verdict -> EACCESS",
                                "table verdict -> ERANGE", "table verdict -> EINVALID", "table verdict -> EIO" };
